@@ -353,7 +353,11 @@ class C15:
     def shrink(self, c):
         for key in ("libs", "comps", "foreign", "seed_ids"):
             for i in range(len(c[key])):
-                yield dict(c, **{key: c[key][:i] + c[key][i + 1:]})
+                d = dict(c, **{key: c[key][:i] + c[key][i + 1:]})
+                # the invocation directory must survive the shrink step
+                dirs = {x["dir"] for k in ("libs", "comps", "foreign") for x in d[k] if isinstance(x, dict) and "dir" in x}
+                if d["cwd"] in ("", "docs") or any(x == d["cwd"] or x.startswith(d["cwd"] + "/") for x in dirs):
+                    yield d
         if c["pkgdir"] != "default":
             yield dict(c, pkgdir="default")
         if c["release"]:
